@@ -3,6 +3,7 @@ LEVEL = "proof"
 FUNCTIONS = [
     "sqfs_super_init", "sqfs_super_write", "sqfs_super_read",
     "sqfs_id_table_read (entry test)",
+    "stdio_write_at", "sqfs_native_file_open", "sqfs_file_open", "sqfs_file_open_handle",
     "sqfs_writer_init", "sqfs_writer_finish", "padd_sqfs", "print_statistics",
     "write_block (meta_writer.c)", "sqfs_write_table",
     "write_data_block", "deduplicate_blocks", "store_block_location",
@@ -10,8 +11,8 @@ FUNCTIONS = [
     "write_location_table", "sqfs_xattr_writer_flush",
 ]
 TRUSTED = [
-    "sqfs_file_t contract (harness/C14/c14_env.h): get_size returns the tracked size; write_at fails or sets size to max(size, off+n) (as stdio_write_at does), fails when off+n > 2^62; truncate fails or sets the size; read_at never changes the file",
-    "sqfs_file_open on the packer's output (O_CREAT|O_EXCL or O_TRUNC, lib/sqfs/src/io/unix.c) yields an empty file (tracked size 0)",
+    "sqfs_file_t contract (harness/C14/c14_env.h) used by the writer-side harnesses: get_size returns the tracked size; write_at fails or writes all n bytes and sets size to max(size, off+n) - this clause is PROVED for the real stdio_write_at against the pwrite contract (file_write_at, file_write_at_bmc); it fails when off+n > 2^62; truncate fails or sets the size (stdio_truncate: lseek+ftruncate, trusted); read_at never changes the file",
+    "kernel semantics of open(2): O_CREAT|O_TRUNC discards old contents atomically with the call, O_CREAT|O_EXCL never returns an existing file; pwrite returns a count in [-1, n]. That the packers' open carries exactly these flags and that no later truncate is issued is PROVED (open_flags, open_handle); hence the tracked size is 0 when sqfs_writer_init gets the file",
     "one write_at(0, 96 bytes) is one crash-atomic step, except for cut positions k < 56 which are proved unreadable (torn_super)",
     "metadata writer as seen by table writers (append/flush): appends whole blocks at the end of the file via write_block (proved in ao_write_block) or fails",
     "compressor do_block contract (DESIGN section 3); compressor write_options hook = sqfs_generic_write_options or 'return 0'",
@@ -52,6 +53,21 @@ HARNESSES = [
          fp={"write_at": "iu_write_at", "read_at": "iu_read_at"},
          unwind=22, timeout=300,
          cases=[dict(id="all", tier="quick")]),
+    dict(name="file_write_at", file="file_write_at.c", label="proved",
+         loops=["stdio_write_at"], loop_tables=["C12"], solver="cadical",
+         timeout=300, cases=[dict(id="all", tier="quick")]),
+    dict(name="file_write_at_bmc", file="file_write_at.c",
+         label="bounded(n <= 3, EINTR <= 2)", defines={"C14_BMC": 1}, unwind=7,
+         solver="cadical",
+         timeout=300, cases=[dict(id="n3", tier="quick")]),
+    dict(name="open_flags", file="open_flags.c", label="proved", timeout=300,
+         nochecks=["--conversion-check"],   # "flags & ~ALL_FLAGS": int mask to unsigned
+         cases=[dict(id="native_open", tier="quick")]),
+    dict(name="open_handle", file="open_flags.c", label="proved", timeout=300,
+         defines={"C14_OPEN_HANDLE_ONLY": 1},
+         fp={"get_size": "stdio_get_size", "destroy": "stdio_destroy", "copy": "stdio_copy"},
+         unwindset=["strlen.0:9", "memcpy.0:9"],
+         cases=[dict(id="file_open", tier="quick")]),
     dict(name="idtable_entry", file="idtable_entry.c", label="proved",
          fp={"destroy": "id_destroy_stub", "copy": "id_copy_stub"},
          unwind=22, timeout=300, cases=[dict(id="all", tier="quick")]),
